@@ -58,6 +58,8 @@ TEMPLATES = {
     "flat": "flat/{sat}_{year}{month}{day}T{hour}{minute}{second}_{end_year}{end_month}{end_day}T"
             "{end_hour}{end_minute}{end_second}.pkl",
     "ym": "{year}{month}/{sat}-{day}-{hour}{minute}{second}-{end_hour}{end_minute}{end_second}.pkl",
+    "edoy": "{year}/{sat}/{year}{doy}_{hour}{minute}{second}-{end_year}{end_doy}_{end_hour}{end_minute}"
+            "{end_second}.pkl",
 }
 SUFFIXES = ["", "", ".gz", ".xz", ".bz2", ".zip"]
 SATS = ["n18", "n19", "metop"]
@@ -318,7 +320,11 @@ class History:
         else:
             day = dt.datetime(2017, rng.choice([2, 3, 12]), rng.choice([1, 28, 31]) if False else 1) + \
                 D(days=rng.choice([0, 27, 58, 30, 364]))
+            if rng.random() < 0.25:
+                day = dt.datetime(rng.choice([2016, 2017, 2020]), 12, 31)   # New Year's Eve (2016, 2020: leap)
             t0 = day + D(seconds=rng.randrange(0, 86400))
+            if day.month == 12 and day.day == 31 and rng.random() < 0.7:
+                t0 = day + D(seconds=rng.randrange(70000, 86400))           # ... late: the file ends next year
             t1 = t0 + D(seconds=rng.choice([0, 1, 600, 3599, 86399 - (t0 - day).seconds % 86400
                                             if False else rng.randrange(0, 80000)]))
             if (t1 - t0) >= D(days=1):
